@@ -29,7 +29,9 @@ META = {
             "the operation's result fingerprint equals the one obtained when the operation runs right after creating its operands in a pristine "
             "interpreter; (no breakage) it raises iff the reference raises, with the same exception type. Non-trivial = transition from a "
             "non-initial state; distinct = distinct canonical states.",
-    "bound": {"quick": "all operation sequences of length <= 3 (deduplicated by state)", "thorough": "length <= 4"},
+    "bound": {"quick": "all operation sequences of length <= 2; length <= 3 below compile of a library-global name / a function called oracle / a callee "
+                       "(deduplicated by state); qiskit/cirq observers at length <= 2 below two first operations",
+              "thorough": "all operation sequences of length <= 4 (light menu) and <= 3 with the qiskit/cirq observers"},
     "assumptions": ["two interpreter states that agree on the canonical form have the same futures (sympy caches and object addresses are not "
                     "branched on by library code)",
                     "the reference fingerprints are validated against a genuinely fresh interpreter (python -c, same hash seed) in the conformance step"],
@@ -351,16 +353,21 @@ def shards(tier):
     """One shard per (first operation, second operation): subtrees are explored in parallel, each with its own seen-set.
     The qiskit/cirq observers are explored by separate shards (one per first operation, length <= 2 / 3)."""
     ops = menu(False)
-    depth = 3 if tier == "quick" else 4
     out = []
     for op1, need1, kind1 in ops:
-        if not need1:
+        if not need1 and (tier == "thorough" or op1 in ("compile:A", "compile:Q")):
             out.append({"first": op1, "second": None, "count_first": False, "depth": 2 if tier == "quick" else 3, "heavy": True})
     for op1, need1, kind1 in ops:
         if need1:
             continue
         slots1 = {op1.split(":")[1]}
         seconds = [op for op, need, kind in ops if all(n in slots1 for n in need)]
+        # quick: every history of length <= 2, and length 3 below the operations that touch names, oracles and callees;
+        # thorough: every history of length <= 4
+        if tier == "quick":
+            depth = 3 if op1 in ("compile:K2", "compile:O", "compile:V") else 2
+        else:
+            depth = 4
         for i, op2 in enumerate(seconds):
             out.append({"first": op1, "second": op2, "count_first": i == 0, "depth": depth, "heavy": False})
     return out
